@@ -258,3 +258,34 @@ def decoder_loops_complete(repo: Repo, rep, rule: str, only: tuple[str, ...] | N
             for lp, path in bad:
                 rep.fail(rule, f"{short}.{q}", lp, "an iteration of the item loop can complete without handing on the item it framed: what the peer sent is dropped silently (a zero-length last fragment loses its 'last' bit and the message never completes; a negotiation item is ignored)", mod=m, node=lp, path=path)
     return n
+
+
+def contextmanagers_yield_once(repo: Repo, rep, rule: str) -> int:
+    """A generator decorated with @contextmanager must yield exactly once on every path that does not
+    raise: a path that returns before the yield makes `with f(..):` raise RuntimeError("generator didn't
+    yield") in the caller - for Association.run() that ends the association thread before the reactor
+    ever runs - and a second yield raises on exit."""
+    from .cfg import CFG, typestate
+    from .loader import body_nodoc, walk_no_nested
+
+    n = 0
+    for mname, m in sorted(repo.modules.items()):
+        short = mname.replace("pynetdicom.", "")
+        if short.startswith(("apps", "tests", "benchmarks")):
+            continue
+        for fn in [f for f in ast.walk(m.tree) if isinstance(f, ast.FunctionDef)]:
+            if not any(norm(d).split(".")[-1] == "contextmanager" for d in fn.decorator_list):
+                continue
+            n += 1
+            fq = f"{short}.{qualname(fn) or fn.name}"
+            cfg = CFG(fn, body=body_nodoc(fn), may_raise=lambda node: False)
+
+            def transfer(nd, st):
+                if nd.kind == "stmt" and any(isinstance(x, (ast.Yield, ast.YieldFrom)) for x in walk_no_nested(nd.ast)):
+                    return [(min(st + 1, 2), None)]
+                return [(st, None)]
+
+            ins, _ = typestate(cfg, 0, transfer)
+            counts = sorted(ins.get(cfg.exit.id, set()))
+            rep.check(counts == [1], rule, fq, f"yields per non-raising path: {counts}", f"the context manager yields {counts} times depending on the path: with 0 the `with` statement using it raises RuntimeError('generator didn't yield') and the caller's thread dies before doing its work, with 2 it raises on exit", mod=m, node=fn)
+    return n
